@@ -86,7 +86,7 @@ Qed.
 
 Lemma body_ok_inv nm body :
   body_ok nm body = true ->
-  conns_last body = true /\ nodup_strs (conn_cables body) = true /\ conn_fresh body = true /\ bb_shape body = true /\
+  bb_shape body = true /\
   reserved nm = false /\ nm <> [] /\
   forall g r p, In (SSub g r p) body -> reserved r = false.
 Proof.
@@ -116,22 +116,22 @@ Proof.
   pose proof (grammar_closed d GTop ss Eg) as Hclosed. cbn [g_inside] in Hclosed.
   pose proof (classify_hdr d MTop ss Ec) as Hhdr. cbn [phase] in Hhdr.
   assert (Hne : ~ In [] (model_names ss)).
-  { intro Hin. destruct (body_ok_inv _ _ (Hbody _ Hin)) as [_ [_ [_ [_ [_ [H _]]]]]]. apply H. reflexivity. }
+  { intro Hin. destruct (body_ok_inv _ _ (Hbody _ Hin)) as [_ [_ [H _]]]. apply H. reflexivity. }
   assert (Hok : Forall okstmt ss).
   { apply Forall_forall. intros x Hin. destruct x; cbn [okstmt]; auto.
     - assert (Hm : In nm (model_names ss)).
       { clear -Hin. induction ss as [|y r IH]; [destruct Hin|]. destruct Hin as [->|Hin]; [left; reflexivity|].
         destruct y; cbn; auto. }
-      destruct (body_ok_inv _ _ (Hbody _ Hm)) as [_ [_ [_ [_ [H _]]]]]. exact H.
+      destruct (body_ok_inv _ _ (Hbody _ Hm)) as [_ [H _]]. exact H.
     - destruct (in_some_body _ ss false [] Hclosed Hin I) as [[A _]|[nm [A B]]]; [discriminate|].
-      destruct (body_ok_inv _ _ (Hbody _ A)) as [_ [_ [_ [_ [_ [_ H]]]]]]. eapply H. exact B. }
+      destruct (body_ok_inv _ _ (Hbody _ A)) as [_ [_ [_ H]]]. eapply H. exact B. }
   assert (Hside : forall nm, sideOK nm [] ss st0).
   { intro nm. apply sideOK_of; [exact Hnd| | |].
     - intros ->. exact Hne.
     - intros ->. exists 0. rewrite (body_closed_nil [] ss false [] Hclosed Hne) by discriminate.
       apply pre_start; try reflexivity; try exact I.
-    - intro Hin. split; [|reflexivity].
-      destruct (body_ok_inv _ _ (Hbody _ Hin)) as [B1' [B2' [B3 [B4 [B5 [B6 B7]]]]]].
+    - intro Hin. split; [|repeat split; reflexivity].
+      destruct (body_ok_inv _ _ (Hbody _ Hin)) as [B4 [B5 [B6 B7]]].
       apply pre_start; auto.
       pose proof (hdr_body_of nm ss 3 [] Hhdr Hnd) as Hh.
       rewrite (proj2 (str_eqb_false [] nm)) in Hh by (intro E; apply B6; symmetry; exact E).
@@ -141,7 +141,7 @@ Proof.
   split.
   - (* declared models *)
     intros nm Hn. destruct (Hinst nm Hn) as [I1 [I2 I3]].
-    destruct (body_ok_inv _ _ (Hbody _ Hn)) as [B1' [B2' [B3 [B4 [B5 [B6 B7]]]]]].
+    destruct (body_ok_inv _ _ (Hbody _ Hn)) as [B4 [B5 [B6 B7]]].
     set (body := body_of nm [] ss) in *. set (fin := run_g nm [] ss st0).
     pose proof (HR nm) as Rn. fold fin in Rn.
     assert (Ebb : n_bb fin = has_blackbox body) by (unfold fin; rewrite run_bb; reflexivity).
@@ -165,11 +165,8 @@ Proof.
         change (same_wire m a b) with (same_wire_c (m_cables m) a b). rewrite Vc.
         fold body in Hnb. rewrite Hnb in Ebb.
         assert (B2f : B2 (m_cables (get_model nm (st_models s))) (n_att fin) (n_conns fin)).
-        { destruct (n_conns fin) as [|c0 cl] eqn:Ecs.
-          - apply b2_of_b1.
-            + rewrite <- Vc. apply find_model_In in Hm as [Hm _]. apply (c_cables _ _ (HWF _ Hm)).
-            + pose proof (r_net _ _ _ Rn Ebb) as Hb1. rewrite Ecs in Hb1. exact Hb1.
-          - rewrite <- Ecs. apply (r_b2 _ _ _ Rn Ebb). rewrite Ecs. discriminate. }
+        { destruct (r_net _ _ _ Rn Ebb) as [al Hni]. apply (NI_B2 _ _ _ al); [|exact Hni].
+          rewrite <- Vc. apply find_model_In in Hm as [Hm _]. apply (c_cables _ _ (HWF _ Hm)). }
         rewrite Eatt, Econn in B2f. apply B2f.
       * (* library *)
         intros m Hm. destruct (Hview m Hm) as [_ [Vc [Vl Vb]]]. fold body.
@@ -219,6 +216,24 @@ Lemma sound_full_example : supported doc_hier = true /\ exists n, elab doc_hier 
 Proof.
   split; [exact doc_hier_supported|]. pose proof doc_hier_reads as H. destruct (elab doc_hier) as [n|] eqn:E; [|discriminate].
   exists n. split; [reflexivity|]. exact (sound_full _ _ doc_hier_supported E).
+Qed.
+
+(* the document on which the unrepaired reader let the second .conn capture the merged net of the first
+   is a supported document now, and the reader builds what it says *)
+Lemma conn_capture_faithful :
+  supported doc_conn_capture = true /\ exists n, elab doc_conn_capture = Ok n /\ denote doc_conn_capture n.
+Proof.
+  destruct conn_capture_repaired as [Hs [n [m [E _]]]]. split; [exact Hs|].
+  exists n. split; [exact E|]. exact (sound_full _ _ Hs E).
+Qed.
+
+(* .conn ahead of the statements that use its nets, chains of .conn, a .conn between two names of one net:
+   the document is supported and the reader builds what it says *)
+Lemma conn_chain_faithful :
+  supported doc_conn_chain = true /\ exists n, elab doc_conn_chain = Ok n /\ denote doc_conn_chain n.
+Proof.
+  destruct conn_chain_reads as [Hs [n [m [E _]]]]. split; [exact Hs|].
+  exists n. split; [exact E|]. exact (sound_full _ _ Hs E).
 Qed.
 
 (* reading a written file: when it is a supported document, the re-read netlist is what it says *)
